@@ -32,7 +32,7 @@ func (d *hDecByCiphertext) Decrypt(_ context.Context, kid string, ct []byte) ([]
 // the first ciphertext of tx1 (a sender can copy it) or not; the entries this node can decrypt give list1 =
 // [node, bob] for tx1 and list2 = [node, eve] for tx2. Eve (authenticated) queries tx2 and tx1 in either order,
 // each once or twice: she is sent the payload of tx2 and never the payload of tx1 - whatever the node remembers
-// from earlier queries.
+// from earlier queries. Bob (authenticated, on list1 only) uses a connection that announces the same peer id as Eve's.
 func H15g() {
 	ctx := context.Background()
 	node, bob, eve := hDID(0), hDID(1), hDID(4)
@@ -64,11 +64,17 @@ func H15g() {
 	}
 	vTag("order")
 	nq := vLen(2, vParam("queries", 3))
+	// a third connection: bob, authenticated, on list1 only - and announcing the SAME peer ID as eve's connection
+	// (the peer ID is self-announced and not authenticated, so whatever the node remembers must not be keyed by it)
+	connB := &hConn{peer: transport.Peer{ID: "eve", Address: "addr3", NodeDID: bob, Authenticated: true}}
 	for i := 0; i < nq; i++ {
 		c := conn
-		vTag("unauthenticated")
-		if vBool() {
+		vTag("connection")
+		switch vChoice(3) {
+		case 1:
 			c = connU
+		case 2:
+			c = connB
 		}
 		vTag("which")
 		if vBool() {
@@ -101,6 +107,14 @@ func H15g() {
 	}
 	if gotTx2 {
 		vCover("listed-peer-served")
+	}
+	for _, e := range connB.sent {
+		r := e.GetTransactionPayload()
+		if r == nil || len(r.Data) == 0 {
+			continue
+		}
+		vCover("second-participant-served")
+		vAssert(string(r.TransactionRef) == string(tx1.ref.Slice()) && len(r.Data) == 2 && r.Data[0] == 1, "H15g.unlisted_peer_never_served: the payload of a private transaction was sent to a peer that is not on its participant list (after an earlier query by a listed peer announcing the same peer id)")
 	}
 	_ = did.DID{}
 }
